@@ -193,10 +193,19 @@ class SubQueryLineageHolder(ColumnLineageMixin):
         A table can be referred to as alias, table name, or database_name.table_name, create the mapping here.
         For SubQuery, it's only alias then.
         """
-        alias_map = {
-            tgt: src
+        alias_edges = [
+            (src, tgt)
             for src, tgt, attr in self.graph.edges(data=True)
             if attr.get("type") == EdgeType.HAS_ALIAS and src in table_group
+        ]
+        alias_map = {tgt: src for src, tgt in alias_edges}
+        # an equal dataset (same name, or same query text for subquery) can be read under another alias in another scope
+        # of the statement: the alias carried by the member of this group is the one that counts here
+        nodes = {src: src for src, _ in alias_edges}
+        alias_map |= {
+            table.alias: nodes.get(table, table)
+            for table in table_group
+            if hasattr(table, "alias")
         }
         unqualified_map = {
             table.raw_name: table for table in table_group if isinstance(table, Table)
